@@ -7,9 +7,12 @@ import (
 	"encoding/json"
 	"fmt"
 	"hash/fnv"
+	"runtime"
 	"runtime/debug"
 	"sort"
 	"strings"
+	"testing"
+	"testing/synctest"
 
 	"verif/sim/tape"
 )
@@ -164,6 +167,8 @@ type Property struct {
 	ThoroughSeconds int
 	MinRuns         int
 
+	// Bubble runs every run inside a testing/synctest bubble (fake clock, quiescence detection).
+	Bubble bool
 	// MemLimitMB, if non-zero, is applied to worker processes with RLIMIT_AS.
 	MemLimitMB int
 	// BatchSize is the number of runs per worker command (smaller for slow runs).
@@ -198,18 +203,67 @@ func RunTape(p *Property, t *tape.Tape, tier string, wantLog bool) (res *Result)
 	return RunTapeOrScript(p, t, nil, tier, wantLog)
 }
 
+// WorkerT is the *testing.T of the worker process (set by TestWorker); bubbles need it.
+var WorkerT *testing.T
+
 // RunTapeOrScript executes a run from a script when one is given, else from the tape.
 func RunTapeOrScript(p *Property, t *tape.Tape, script []json.RawMessage, tier string, wantLog bool) (res *Result) {
 	c := NewCtx(t, tier, wantLog)
 	c.Script = script
 	defer func() {
 		if r := recover(); r != nil {
-			c.Fail("no-panic", ClassifyPanic(fmt.Sprint(r)), "panic on the simulation goroutine: %v\n%s", r, trimStack(debug.Stack()))
+			msg := fmt.Sprint(r)
+			if strings.Contains(msg, "deadlock: all goroutines in bubble are blocked") || strings.Contains(msg, "deadlock: main bubble goroutine has exited") {
+				c.Fail("bubble-terminates", "goroutines-blocked-forever", "at the end of the run goroutines of the system under test are still blocked with no timer pending:\n%s", blockedGoroutines())
+			} else {
+				c.Fail("no-panic", ClassifyPanic(msg), "panic on the simulation goroutine: %v\n%s", r, trimStack(debug.Stack()))
+			}
 			res = c.Finish()
 		}
 	}()
-	p.Run(c)
+	if p.Bubble {
+		if WorkerT == nil {
+			panic("bubble property outside a worker process")
+		}
+		synctest.Test(WorkerT, func(*testing.T) { p.Run(c) })
+	} else {
+		p.Run(c)
+	}
 	return c.Finish()
+}
+
+// blockedGoroutines renders the goroutines of the code under test that are parked in a bubble.
+func blockedGoroutines() string {
+	buf := make([]byte, 1<<20)
+	buf = buf[:runtime.Stack(buf, true)]
+	var out []string
+	for _, g := range strings.Split(string(buf), "\n\n") {
+		if !strings.Contains(g, "synctest bubble") && !strings.Contains(g, "(durable)") {
+			continue
+		}
+		if !strings.Contains(g, "tokenized/bitcoin_reader") && !strings.Contains(g, "tokenized/threads") {
+			continue
+		}
+		lines := strings.Split(g, "\n")
+		keep := []string{lines[0]}
+		for i := 1; i+1 < len(lines); i += 2 {
+			if strings.Contains(lines[i], "tokenized/") {
+				fn := lines[i]
+				if j := strings.Index(fn, "("); j > 0 {
+					fn = fn[:j]
+				}
+				keep = append(keep, "  "+strings.TrimSpace(fn)+" "+strings.TrimSpace(lines[i+1]))
+			}
+			if len(keep) > 5 {
+				break
+			}
+		}
+		out = append(out, strings.Join(keep, "\n"))
+		if len(out) >= 12 {
+			break
+		}
+	}
+	return strings.Join(out, "\n")
 }
 
 func ClassifyPanic(s string) string {
